@@ -32,10 +32,14 @@ for _n in ('acos', 'asin', 'atan', 'sin', 'cos', 'tan', 'sinh', 'cosh', 'tanh', 
            'log', 'exp', 'log10'):
     LIBM[_n] = z3.Function('math_' + _n, _R, _R)
 LIBM2 = {'atan2': z3.Function('math_atan2', _R, _R, _R), 'log': z3.Function('math_log2', _R, _R, _R)}
+LIBM['acot'] = z3.Function('math_acot', _R, _R)       # spec-side names for the statement's functions that math lacks
+LIBM['acoth'] = z3.Function('math_acoth', _R, _R)
+LIBM['cot'] = z3.Function('math_cot', _R, _R)
 PI = z3.Real('math_pi')
 E = z3.Real('math_e')
 # domains: (predicate on x for which math.f(x) is defined, exception otherwise)
 LIBM_DOMAIN = {
+    'acoth': lambda x: z3.Or(x > 1, x < -1),
     'acos': lambda x: z3.And(x >= -1, x <= 1), 'asin': lambda x: z3.And(x >= -1, x <= 1),
     'sqrt': lambda x: x >= 0, 'log': lambda x: x > 0, 'log10': lambda x: x > 0,
     'acosh': lambda x: x >= 1, 'atanh': lambda x: z3.And(x > -1, x < 1),
@@ -236,11 +240,39 @@ class Builtins(object):
         if name in LIBM_DOMAIN:
             if not ctx.branch(LIBM_DOMAIN[name](x)):
                 raise PyRaise('ValueError', ExcInst('ValueError'))
+        if name == 'cot':
+            # cot is undefined where sin vanishes
+            if ctx.branch(LIBM['sin'](x) == 0):
+                raise PyRaise('ZeroDivisionError', ExcInst('ZeroDivisionError'))
         if name in LIBM_OVERFLOW:
             ovf = z3.Function('math_overflows_' + name, _R, z3.BoolSort())
             if ctx.branch(ovf(x)):
                 raise PyRaise('OverflowError', ExcInst('OverflowError'))
+        self.identities(it, name, x)
         return mk_float(LIBM[name](x))
+
+    def identities(self, it, name, x):
+        """ defining identities of the statement (C16), assumed as mathematics about the uninterpreted real functions """
+        ax = it.ctx.axiom
+        L = LIBM
+        if name == 'sqrt':
+            ax(z3.Implies(x >= 0, z3.And(L['sqrt'](x) >= 0, L['sqrt'](x) * L['sqrt'](x) == x)))
+        elif name == 'log':
+            ax(z3.Implies(x == 1, L['log'](x) == 0))
+        elif name == 'acosh':
+            ax(z3.Implies(x >= 1, L['acosh'](x) == L['log'](x + L['sqrt'](x * x - 1))))
+        elif name == 'acot':
+            ax(z3.Implies(x != 0, L['acot'](x) == L['atan'](1 / x)))
+            ax(z3.Implies(x == 0, L['acot'](x) == PI / 2))
+            ax(z3.And(PI > z3.RealVal('3.14159'), PI < z3.RealVal('3.1416')))
+        elif name == 'acoth':
+            ax(z3.Implies(z3.Or(x > 1, x < -1), L['acoth'](x) == z3.RealVal('1/2') * L['log']((x + 1) / (x - 1))))
+        elif name == 'cot':
+            ax(z3.Implies(L['sin'](x) != 0, L['cot'](x) == L['cos'](x) / L['sin'](x)))
+        elif name == 'exp':
+            ax(L['exp'](x) == rpow(E, x))
+        elif name == 'log10':
+            ax(z3.Implies(x > 0, L['log10'](x) == LIBM2['log'](x, z3.RealVal(10))))
 
     def x_math_floor(self, it, args, kwargs):
         s, k = _num_kind(it, args[0])
